@@ -630,6 +630,12 @@ class FA:
             self.attr_store(self.av(t.value), t.attr, v)
         elif isinstance(t, ast.Subscript):
             self.store(self.av(t.value), 'store')
+            b = t.value
+            while isinstance(b, ast.Subscript):
+                b = b.value
+            if isinstance(b, ast.Name):
+                # content provenance: the local array now holds values copied from v
+                self.env[b.id] = self.env.get(b.id, EMPTY) | self.copy_of(v)
         elif isinstance(t, (ast.Tuple, ast.List)):
             for e in t.elts:
                 self.assign_to(e, v)
